@@ -334,8 +334,8 @@ def run_inprocess(case):
         if k not in seen:
             seen.add(k)
             out.append(v)
-    return {"key": [prog["ops"], case["typing"], {r: v["outs"] for r, v in prog["ranks"].items()}],
-            "evaluations": nstates, "keys": [[T.tkey(prog["ops"]), case["typing"], i] for i in range(nstates)],
+    return {"key": None,
+            "evaluations": nstates, "keys": [[runner.stable_hash(prog["ranks"]), case["typing"], i] for i in range(nstates)],
             "nontrivial": True, "outcome": "ok" if not out else "violation", "violations": out[:8],
             "states": nstates, "transitions": ntrans, "traces": nstates, "counters": dict(counters),
             "sample": {"family": case["fam"], "typing": case["typing"], "reduction_orders": nstates}}
